@@ -115,6 +115,33 @@ def tsMeanRows (rows : List (List Int)) (w : Nat) : Option (List Int) :=
     let m := listMin rows.flatten
     some ((intMeanRows (rows.map fun r => r.map (· - m)) w w).map (m + ·))
 
+/-- Number of splits `_int_mean(axis=1)` performs along the reduced axis (the same for every row). -/
+def intMeanRowsSplits (rows : List (List Int)) (w : Nat) : Nat :=
+  if _h : anyCould rows w = true ∧ 2 ≤ w then
+    intMeanRowsSplits (rows.map (·.take (w / 2))) (w / 2) +
+      intMeanRowsSplits (rows.map (·.drop (w / 2))) (w - w / 2) + 1
+  else 0
+termination_by w
+decreasing_by all_goals omega
+
+/-- Every integer `_int_mean(axis=1)` computes on the way: per leaf block the row sums and the
+    quotients, per split the element-wise sums of the two partial means. -/
+def intMeanRowsTrace (rows : List (List Int)) (w : Nat) (total : Int) : List Int :=
+  if _h : anyCould rows w = true ∧ 2 ≤ w then
+    intMeanRowsTrace (rows.map (·.take (w / 2))) (w / 2) total ++
+      intMeanRowsTrace (rows.map (·.drop (w / 2))) (w - w / 2) total ++
+      List.zipWith (· + ·) (intMeanRows (rows.map (·.take (w / 2))) (w / 2) total)
+        (intMeanRows (rows.map (·.drop (w / 2))) (w - w / 2) total)
+  else (rows.map List.sum) ++ (rows.map fun r => r.sum / total)
+termination_by w
+decreasing_by all_goals omega
+
+/-- All intermediate integers of `timestamp_mean(a, axis=1)`. -/
+def tsMeanRowsTrace (rows : List (List Int)) (w : Nat) : List Int :=
+  let m := listMin rows.flatten
+  let sh := rows.map fun r => r.map (· - m)
+  sh.flatten ++ intMeanRowsTrace sh w w ++ (intMeanRows sh w w).map (m + ·)
+
 /-! ### info wave → pixels -/
 
 /-- A continuous info wave: sample `i` has timestamp `start + i·dt` and code `iw[i]`
@@ -186,11 +213,60 @@ def kymoImage (P : Nat) (pix : List Int) : List (List Int) := transposeN P (padR
 def Wave.kymoTimestamps (w : Wave) (P : Nat) : Option (List (List Int)) :=
   w.pixMean.map (kymoImage P)
 
-/-- `int(1e9 / infowave.sample_rate)` with `sample_rate = 1e9 / dt`, in IEEE doubles as the code
-    computes it (`dt − 1` for dt = 55, 57, 110, …). -/
-def deltaTs (dt : Int) : Int :=
+/-! ### IEEE-754 binary64 division, exactly (for `int(1e9 / (1e9 / dt))`) -/
+
+/-- round-half-to-even of the fraction `A / B` -/
+def roundHalfEven (A B : Nat) : Nat :=
+  let q := A / B
+  let r := A % B
+  if 2 * r < B then q else if B < 2 * r then q + 1 else if q % 2 = 0 then q else q + 1
+
+/-- the exponent of the `(c+1)`-bit float nearest to `p / q`, as a pair `(u, v)`: the unit in the last
+    place is `2^u / 2^v` (one of the two is `2^0`), chosen so that `2^c ≤ (p/q)·2^v/2^u < 2^(c+1)`: first
+    guess from the bit lengths (`Nat.log2`), one more when the scaled quotient reaches `2^(c+1)`. -/
+def rnExp (c p q : Nat) : Nat × Nat :=
+  if q * 2 ^ (p.log2 - (q.log2 + (c + 1))) * 2 ^ (c + 1) ≤ p * 2 ^ ((q.log2 + (c + 1)) - p.log2) then
+    (p.log2 - (q.log2 + c), (q.log2 + c) - p.log2)
+  else (p.log2 - (q.log2 + (c + 1)), (q.log2 + (c + 1)) - p.log2)
+
+/-- `p / q` in IEEE-754 binary64 with round-to-nearest-even, as an exact fraction (numerator,
+    denominator); `p`, `q` positive, quotient in the normal range (no subnormals, no overflow). -/
+def rnDiv (p q : Nat) : Nat × Nat :=
+  let uv := rnExp 52 p q
+  (roundHalfEven (p * 2 ^ uv.2) (q * 2 ^ uv.1) * 2 ^ uv.1, 2 ^ uv.2)
+
+/-- `int(1e9 / infowave.sample_rate)` with `sample_rate = 1e9 / dt` computed exactly as IEEE doubles do:
+    `rate = RN(10⁹/dt)`, `RN(10⁹/rate)`, truncation. -/
+def deltaSoft (dt : Nat) : Nat :=
+  let rate := rnDiv 1000000000 dt
+  let back := rnDiv (1000000000 * rate.2) rate.1
+  back.1 / back.2
+
+/-- `delta_ts = int(1e9 / infowave.sample_rate)` as the code computes it (`dt − 1` for dt = 55, 57,
+    110, …): the exact binary64 model above, so that the kernel can compute with it. -/
+def deltaTs (dt : Int) : Int := Int.ofNat (deltaSoft dt.toNat)
+
+/-- The same through Lean's hardware `Float` (opaque to the kernel) — only a cross-check of `rnDiv`,
+    printed next to `deltaTs` by op `c03.delta`. -/
+def deltaTsFloat (dt : Int) : Int :=
   let rate : Float := 1e9 / Float.ofInt dt
   Int.ofNat (1e9 / rate).toUInt64.toNat
+
+/-- `float(N) * 1e-9` as the code computes it in binary64: the integer is converted (rounded when it
+    needs more than 53 bits), the literal `1e-9` is the double nearest to 10⁻⁹, the product is rounded. -/
+def secondsOf (N : Nat) : Nat × Nat :=
+  if N = 0 then (0, 1)
+  else
+    let f := rnDiv N 1
+    let c := rnDiv 1 1000000000
+    rnDiv (f.1 * c.1) (f.2 * c.2)
+
+/-- `x * n` in binary64 for a double `x` (as a fraction) and an integer `n`. -/
+def timesNat (x : Nat × Nat) (n : Nat) : Nat × Nat :=
+  if x.1 = 0 ∨ n = 0 then (0, 1)
+  else
+    let f := rnDiv n 1
+    rnDiv (x.1 * f.1) (x.2 * f.2)
 
 /-- `image.max(axis=0)`: maximum of every column of an image with `n` columns. -/
 def colMax (img : List (List Int)) (n : Nat) : List Int :=
@@ -258,6 +334,23 @@ def Wave.numBoundaries (w : Wave) : Nat := (w.iw.filter (· == 2)).length
     Outer `none` = `RuntimeError` (no pixel), inner `none` = `IndexError` (image of no pixel). -/
 def Wave.durationNs (w : Wave) (P : Nat) : Option Int :=
   (w.lineTimeNs P).map fun lt => lt * numBlocks w.numBoundaries P
+
+/-- `pixel_time_seconds`, `line_time_seconds`, `duration` as binary64 values (exact fractions). -/
+def Wave.pixelTimeSec (w : Wave) : Option (Nat × Nat) := w.pixelTimeNs.map fun ns => secondsOf ns.toNat
+def Wave.lineTimeSec (w : Wave) (P : Nat) : Option (Nat × Nat) :=
+  (w.lineTimeNs P).map fun ns => secondsOf ns.toNat
+def Wave.durationSec (w : Wave) (P : Nat) : Option (Nat × Nat) :=
+  (w.lineTimeNs P).map fun ns => timesNat (secondsOf ns.toNat) (numBlocks w.numBoundaries P)
+
+/-! ### the C02 kymograph geometries (the domain the theorems `kymo_geometry_ranges` quantify over) -/
+
+/-- one pixel of `k` samples: `k − 1` codes 1, then the boundary code 2 -/
+def geomPixel (k : Nat) : List Nat := List.replicate (k - 1) 1 ++ [2]
+/-- one line: `P` pixels, then `dead` discarded samples -/
+def geomLine (k P dead : Nat) : List Nat := (List.replicate P (geomPixel k)).flatten ++ List.replicate dead 0
+/-- a kymograph info wave as in C02: lead-in, `lines` lines, tail; `take n` of it is a truncated one -/
+def geomKymo (lead k P dead lines tail : Nat) : List Nat :=
+  List.replicate lead 0 ++ ((List.replicate lines (geomLine k P dead)).flatten ++ List.replicate tail 0)
 
 /-! ### scans -/
 
@@ -361,6 +454,23 @@ def sumAnswer (w : Wave) (c : C01.Cont) (rs : List (Int × Int)) (block : Nat) (
     `RuntimeError("Can't get pixel timestamps if there are no pixels")` before reconstructing. -/
 def guardEmpty (w : Wave) (ans : String) : String := if w.iw = [] then "RuntimeError" else ans
 
+/-- `" T/F #splits"` for the per-pixel mean of a wave: every intermediate integer of
+    `timestamp_mean(pixel rows, axis=1)` fits int64, and the number of splits along a row. -/
+def pixSuffix (w : Wave) : String :=
+  match w.pixelSize with
+  | none => ""
+  | some k =>
+    let rows := rowsOf k w.usedTs
+    " " ++ showBool ((tsMeanRowsTrace rows k).all fitsI64) ++ " " ++
+      toString (intMeanRowsSplits (rows.map fun r => r.map (· - listMin rows.flatten)) k)
+
+def showFrac (x : Nat × Nat) : String := toString x.1 ++ "/" ++ toString x.2
+
+/-- `"<integer ns> <binary64 seconds as an exact fraction>"` -/
+def showTime : Option Int → Option (Nat × Nat) → String
+  | some ns, some s => showInt ns ++ " " ++ showFrac s
+  | _, _ => "RuntimeError"
+
 def mkWave? (st dt iw : String) : Option Wave := do
   let st ← int? st; let dt ← int? dt; let iw ← natList? iw
   if dt ≤ 0 then none
@@ -369,11 +479,14 @@ def mkWave? (st dt iw : String) : Option Wave := do
 
 /-- ops (a wave is `start dt [codes]`):
   `c03.mean [a…]`                 `timestamp_mean`, then `T/F` = every intermediate fits int64, then #splits
-  `c03.meanrows w [r;r;…]`        `timestamp_mean(axis=1)`
-  `c03.kts   <wave> P`            `Kymo.timestamps`
+  `c03.meanrows w [r;r;…]`        `timestamp_mean(axis=1)`, then `T/F` = every intermediate fits int64, then #splits
+  `c03.geom lead k P dead lines tail n`  the info wave of that kymograph geometry, truncated after `n` samples
+  `c03.delta dt`                  `int(1e9 / sample_rate)`: exact binary64 model, then Lean's `Float`
+  `c03.kts   <wave> P`            `Kymo.timestamps`, then `T/F` = every intermediate of the per-pixel mean fits int64, then #splits
   `c03.krex  <wave> P`            `line_timestamp_ranges()` followed by the δ used
   `c03.krin  <wave> P`            `line_timestamp_ranges(include_dead_time=True)`
-  `c03.klt / c03.kdur <wave> P`   line time / duration in ns;  `c03.pt <wave>` pixel time in ns
+  `c03.klt / c03.kdur <wave> P`   line time / duration: integer ns, then the binary64 seconds the code returns as an
+                                  exact fraction `num/den`;  `c03.pt <wave>` pixel time, the same
   `c03.ksum  <wave> P [counts] cstart [cdata]`  `channel.downsampled_over(line ranges, np.sum)` then the image column totals
   `c03.sts   <wave> P L flip`     `Scan.timestamps` (frames separated by `|`)
   `c03.srng  <wave> P L incl`     `frame_timestamp_ranges`: pinned answer, then the repaired one
@@ -390,10 +503,26 @@ def handle : List String → Option String
     let w ← nat? w
     let rows ← intListList? rows
     if rows.any (·.length ≠ w) then none
-    else some (showErr showIntList "ValueError" (tsMeanRows rows w))
+    else
+      match tsMeanRows rows w with
+      | none => some "ValueError"
+      | some v =>
+        some (showIntList v ++ " " ++ showBool ((tsMeanRowsTrace rows w).all fitsI64) ++ " " ++
+          toString (intMeanRowsSplits (rows.map fun r => r.map (· - listMin rows.flatten)) w))
+  | ["c03.geom", lead, k, p, dead, lines, tail, trunc] => do
+    let lead ← nat? lead; let k ← nat? k; let p ← nat? p; let dead ← nat? dead
+    let lines ← nat? lines; let tail ← nat? tail; let trunc ← nat? trunc
+    if k = 0 then none else some (showList toString ((geomKymo lead k p dead lines tail).take trunc))
+  | ["c03.delta", dt] => do
+    let dt ← int? dt
+    if dt ≤ 0 then none else some (toString (deltaTs dt) ++ " " ++ toString (deltaTsFloat dt))
   | ["c03.kts", st, dt, iw, p] => do
     let w ← mkWave? st dt iw; let p ← nat? p
-    if p = 0 then none else some (guardEmpty w (showErr (showListList showInt) "ValueError" (w.kymoTimestamps p)))
+    if p = 0 then none
+    else
+      match w.kymoTimestamps p with
+      | none => some (guardEmpty w "ValueError")
+      | some img => some (guardEmpty w (showListList showInt img ++ pixSuffix w))
   | ["c03.krex", st, dt, iw, p] => do
     let w ← mkWave? st dt iw; let p ← nat? p
     if p = 0 then none
@@ -403,15 +532,15 @@ def handle : List String → Option String
     if p = 0 then none else some (guardEmpty w (showRanges2 (w.lineRangesInclFixed p (deltaTs w.dt))))
   | ["c03.klt", st, dt, iw, p] => do
     let w ← mkWave? st dt iw; let p ← nat? p
-    if p = 0 then none else some (showErr showInt "RuntimeError" (w.lineTimeNs p))
+    if p = 0 then none else some (showTime (w.lineTimeNs p) (w.lineTimeSec p))
   | ["c03.kdur", st, dt, iw, p] => do
     let w ← mkWave? st dt iw; let p ← nat? p
     if p = 0 then none
     else if w.numBoundaries = 0 ∧ (w.lineTimeNs p).isSome then some "IndexError"
-    else some (showErr showInt "RuntimeError" (w.durationNs p))
+    else some (showTime (w.durationNs p) (w.durationSec p))
   | ["c03.pt", st, dt, iw] => do
     let w ← mkWave? st dt iw
-    some (showErr showInt "RuntimeError" (w.pixelTimeNs))
+    some (showTime w.pixelTimeNs w.pixelTimeSec)
   | ["c03.ksum", st, dt, iw, p, data, cst, cdata] => do
     let w ← mkWave? st dt iw; let p ← nat? p; let data ← intList? data
     let cst ← int? cst; let cdata ← intList? cdata
